@@ -8,8 +8,12 @@ from props.qcommon import *
 RECL_QUICK = [('HPs<3>', '_hp'), ('EBR', '_ebr')]
 RECL_ALL = RECL_QUICK + [('HEs<3>', '_he'), ('NEBR', '_nebr'), ('DEBRA', '_debra'), ('QSBR', '_qsbr'), ('STAMP', '_stamp')]
 def harnesses(tier):
-    return [('uq', ('XV_RECL=%s' % r,), False, sfx) for r, sfx in (RECL_ALL if tier == 'thorough' else RECL_QUICK)]
+    return [('uq', ('XV_RECL=%s' % r,), False, sfx) for r, sfx in (RECL_ALL if tier == 'thorough' else RECL_QUICK)] + [('uq', ('XV_RECL=GC',), False, '_gc')]
 HARNESSES = harnesses('quick')
+PROPERTY_FILES = ['Properties_C06', 'Properties_C06_kfb']
+THEOREM_NOTES = {
+    'scope': 'proved on a step-level model of kirsch_bounded_kfifo_queue (any k >= 1, any segment count >= 1, random start offsets as oracle values) tied by trace correspondence: conservation (no value popped twice, only pushed values, a value whose push returned true is never stranded outside the head..tail region, at quiescence stored ++ popped is a permutation of the committed values), pops take from the head segment (the part of the k-relaxation that is true of single steps), the empty verdict (no committed value stored at the instant of the re-check - stronger than fewer than k), the true weaker full verdict, slot history / tags, the generated (index, tag) word, solo termination with an explicit bound. The premature-full known finding is reproduced as a refuted lemma with a schedule that replays on the code. k-FIFO linearizability of whole histories and the unbounded kirsch_kfifo_queue are covered by the search with the exact k-FIFO oracle',
+}
 ASSUMPTIONS = [
     'SC interleavings only in this check; concurrent k-relaxation is explored with an exact k-FIFO linearizability check of every explored history, not proved',
     'the random start index (utils::random) is a recorded choice supplied through the XENIUM_VERIF_HOOKS hook',
@@ -51,6 +55,40 @@ def big_corpus(ctx, H):
         if st != 0:
             report_impl(ctx, st, det, txt[:300] + ' ... (corpus/C06/thorough/%s)' % f, {'corpus': f})
 
+def kfb_correspondence(ctx, harness, cases, per_case):
+    """xvlib.correspondence with a recorded `choices` line (the random start offsets) in every case file"""
+    import hashlib, concurrent.futures as cf
+    wd, driver, rng = ctx['wd'], ctx['driver'], ctx['rng']
+    jobs = []; cov = 0
+    for ci, (cfg, prog) in enumerate(cases):
+        choices = [rng.randrange(0, 200) for _ in range(80)]
+        base = wd.write(X.case_text(cfg, prog, None, choices))
+        scheds, c = X.model_schedules(driver, 'kfb', base, per_case, ctx['seed'] * 7919 + 13 + ci)
+        cov = max(cov, c)
+        for s_ in scheds: jobs.append((cfg, prog, s_, choices))
+    st = {'cases': len(jobs), 'programs': len(cases), 'steps': 0, 'mismatches': [], 'impl_violations': [], 'model_pcs_covered': cov, 'distinct': 0, 'samples': []}
+    def one(job):
+        cfg, prog, s_, choices = job
+        txt = X.case_text(cfg, prog, s_, choices)
+        return X.correspond_one(driver, 'kfb', harness, wd.write(txt)), txt
+    with cf.ThreadPoolExecutor(max_workers=X.NPROC) as ex:
+        for (same, diff, n, ist, idet), txt in ex.map(one, jobs):
+            st['steps'] += n
+            if not same: st['mismatches'].append({'case': txt, 'step': diff[0], 'model': diff[1], 'impl': diff[2]})
+            if ist != 0: st['impl_violations'].append({'case': txt, 'status': ist, 'detail': idet})
+            if len(st['samples']) < 2: st['samples'].append({'case': txt, 'agree': same, 'trace_lines': n})
+    st['distinct'] = len(set(hashlib.sha1(X.case_text(c, p, s_, ch).encode()).hexdigest() for c, p, s_, ch in jobs))
+    c = ctx['cov'].setdefault('correspondence', {})
+    c['kirsch_bounded'] = {k: st[k] for k in ('cases', 'programs', 'steps', 'model_pcs_covered', 'distinct')}
+    c['kirsch_bounded']['mismatches'] = len(st['mismatches'])
+    ctx['cov']['samples'] += st['samples'][:1]
+    ctx['cov']['traces_validated_against_impl'] = ctx['cov'].get('traces_validated_against_impl', 0) + st['cases'] - len(st['mismatches'])
+    log('correspondence[kirsch_bounded]: %d cases (%d programs), %d trace lines, %d mismatches, %d impl violations' % (st['cases'], st['programs'], st['steps'], len(st['mismatches']), len(st['impl_violations'])))
+    for v in st['impl_violations'][:2]:
+        f = dict(v); extra = classify_for('uq_gc')(ctx, harness, f) if 'classify_for' in globals() else None
+        report_impl(ctx, v['status'], v['detail'], v['case'], extra)
+    return st
+
 def run(ctx):
     rng, tier = ctx['rng'], ctx['tier']
     thorough = tier == 'thorough'
@@ -59,6 +97,16 @@ def run(ctx):
     if thorough or ctx['proof_broken']:
         big_corpus(ctx, Hs['uq_hp'])     # targeted search after a broken proof obligation (index width)
     n = 2500 if thorough else 300
+    # ---- tie: the bounded k-FIFO model reproduces the implementation's traces (recorded random start offsets included)
+    Hgc = Hs.pop('uq_gc')
+    cases = []
+    for (k, segs) in [(1, 1), (1, 3), (2, 2), (2, 3), (3, 2)]:
+        for i in range(2 if thorough else 1):
+            cfgm = {'q': 'kfb', 'elem': 'ptr', 'k': str(k), 'segs': str(segs)}
+            prog = queue_program(rng, 2 + (i + k) % 2, 3 + i, pushy=0.6)
+            cases.append((cfgm, prog))
+    st = kfb_correspondence(ctx, Hgc, cases, 8 if thorough else 4)
+    tie = tie_broken_sig(st, 'kfb')
     for name, H in sorted(Hs.items()):
         jobs = []
         for (k, segs) in [(1, 1), (1, 3), (2, 2), (3, 2)] + ([(4, 3), (2, 1)] if thorough else []):
@@ -80,4 +128,4 @@ def run(ctx):
                     jobs.append((cfgw, prog, 'pct', 4 * n, ctx['seed'] + i, ('--depth', '3')))
                     jobs.append((cfgw, prog, 'random', 2 * n, ctx['seed'] + i, ()))
         do_search(ctx, H, jobs, name, classify=classify_for(name))
-    return None
+    return tie
